@@ -224,7 +224,7 @@ func runHistory(c *Ctx, caseIdx int, rng *rand.Rand, o *HistOpts) *HistRun {
 	seed := c.Seed*1_000_003 + int64(caseIdx)
 	g := NewGen(rng, seed, o.Gen, o.Params)
 	hr := &HistRun{C: c, Case: caseIdx, Opts: o, G: g, Times: map[int64]int64{}, Accepted: map[string]int{}, Rejected: map[string]int{}}
-	dir := c.Dir(fmt.Sprintf("%s-%d", o.Name, caseIdx))
+	dir := c.DirI(caseIdx, fmt.Sprintf("%s-%d", o.Name, caseIdx))
 	hr.Dir = dir
 	r, err := Spawn(dir, SpawnOpt{Race: o.Race})
 	if err != nil {
